@@ -159,6 +159,8 @@ def sampled_entries(content: str, base_is_expr: bool) -> list[str]:
         entries.append("tokens:str")
     if base_is_expr and h % 3 == 0:
         entries.append("string:eval")
+    if h % 8 == 5:
+        entries.append("string:exec:py38")
     return entries
 
 
